@@ -419,6 +419,62 @@ def stores(repo):
 
 
 # -------------------------------------------------------------------------------------------------
+# who binds a hook value cache
+# -------------------------------------------------------------------------------------------------
+def cache_bindings(repo):
+    """every place in pyroll/core where the attribute `__cache__` of an object is BOUND (assignment, annotated /
+    augmented assignment, `setattr(x, '__cache__', ..)`, `x.__dict__['__cache__'] = ..`, `del`): (file:function,
+    receiver, bound expression).  The model gives every hook host a cache of its own, created empty with the object
+    and never re-bound; an object adopting another object's cache (`self.__cache__ = template.__cache__`) shows up here"""
+    base = os.path.join(repo, "pyroll", "core")
+    res = []
+    for root, dirs, files in os.walk(base):
+        dirs.sort()
+        for fn in sorted(files):
+            if not fn.endswith(".py"):
+                continue
+            path = os.path.join(root, fn)
+            rel = os.path.relpath(path, base)
+            with open(path) as f:
+                tree = ast.parse(f.read(), filename=path)
+
+            def is_cache(t):
+                if isinstance(t, ast.Attribute) and t.attr == "__cache__":
+                    return _src(t.value)
+                if isinstance(t, ast.Subscript) and isinstance(t.slice, ast.Constant) and t.slice.value == "__cache__":
+                    return _src(t.value)                 # x.__dict__['__cache__'], vars(x)['__cache__'], d['__cache__']
+                return None
+
+            def visit(node, qual):
+                for ch in ast.iter_child_nodes(node):
+                    q = qual
+                    if isinstance(ch, (ast.ClassDef, ast.FunctionDef, ast.AsyncFunctionDef)):
+                        q = (qual + "." if qual else "") + ch.name
+                    targets, value = [], None
+                    if isinstance(ch, ast.Assign):
+                        targets, value = list(ch.targets), _src(ch.value)
+                    elif isinstance(ch, ast.AnnAssign) and ch.value is not None:
+                        targets, value = [ch.target], _src(ch.value)
+                    elif isinstance(ch, ast.AugAssign):
+                        targets, value = [ch.target], "aug " + _src(ch.value)
+                    elif isinstance(ch, ast.Delete):
+                        targets, value = list(ch.targets), "del"
+                    elif isinstance(ch, ast.Call) and isinstance(ch.func, ast.Name) and ch.func.id in ("setattr", "delattr") \
+                            and len(ch.args) >= 2 and isinstance(ch.args[1], ast.Constant) and ch.args[1].value == "__cache__":
+                        res.append((f"{rel}:{qual}", _src(ch.args[0]), _src(ch.args[2]) if len(ch.args) > 2 else "del"))
+                    flat = []
+                    for t in targets:
+                        flat.extend(t.elts if isinstance(t, (ast.Tuple, ast.List)) else [t])
+                    for t in flat:
+                        r = is_cache(t)
+                        if r is not None:
+                            res.append((f"{rel}:{qual}", r, value))
+                    visit(ch, q)
+            visit(tree, "")
+    return res
+
+
+# -------------------------------------------------------------------------------------------------
 def _s(x):
     return '"' + x.replace("\\", "\\\\").replace('"', '\\"') + '"'
 
@@ -434,6 +490,7 @@ def generate(repo):
     shapes = [("profileInit", copy_shape(prof_init, "profile")), ("rollInit", copy_shape(roll_init, "roll"))]
     writes = solve_writes(repo)
     st = stores(repo)
+    cb = cache_bindings(repo)
 
     L = []
     L.append("/- GENERATED by driver/translate/c12_effects.py from pyroll/core (unit/unit.py, hooks.py, roll_pass/*.py,")
@@ -469,6 +526,11 @@ def generate(repo):
     L.append("/-- what is stored / returned: (function, slot, expression) -/")
     L.append("def stores : List (String × String × String) :=\n  ["
              + ",\n   ".join(f"({_s(a)}, {_s(b)}, {_s(c)})" for a, b, c in st) + "]")
+    L.append("")
+    L.append("/-- every binding of a hook value cache (`x.__cache__ = …`, `setattr`, `__dict__['__cache__']`, `del`) in")
+    L.append("    pyroll/core: (file:function, receiver, bound expression) -/")
+    L.append("def cacheBindings : List (String × String × String) :=\n  ["
+             + ",\n   ".join(f"({_s(a)}, {_s(b)}, {_s(c)})" for a, b, c in cb) + "]")
     L.append("")
     L.append("end Gen.C12")
     return "\n".join(L) + "\n"
